@@ -98,6 +98,7 @@ func (db *DB) Merge() error {
 	// 执行 merge
 	// 依次读取每个数据文件, 解析得到日志记录并写入新 merge 目录
 	for _, dataFile := range mergeFiles {
+		verifMergeFile(dataFile.ID)
 		reader := dataFile.NewReader()
 		for {
 			logRecord, logRecordPos, err := reader.NextLogRecord()
